@@ -1,6 +1,8 @@
 """Child of the C20 explorer: executed in a FRESH interpreter.
 
-argv: <repo> <module> [<module> ...]   -> one JSON object on stdout:
+argv: <repo> <op> [<op> ...]   -> one JSON object on stdout. An op is a dotted module name (the client writes
+`import chartparse.x`) or "from:chartparse.x" (the client writes `from chartparse import x`); after either form the
+name the client holds must be THE module object chartparse.x (also sys.modules[...] and the package attribute).
   results: [[module, "ok" | "ExceptionClass: message"], ...]      (imports executed in this order)
   loaded:  sorted chartparse* entries of sys.modules
   fingerprint: sha1 over the canonical namespace table
@@ -16,8 +18,22 @@ sys.path.insert(0, repo)
 results = []
 for m in mods:
     try:
-        importlib.import_module(m)
-        results.append([m, "ok"])
+        name = m[5:] if m.startswith("from:") else m
+        if m.startswith("from:") and "." in name:
+            pkg, _, leaf = name.rpartition(".")
+            ns = {}
+            exec("from %s import %s as bound" % (pkg, leaf), ns)
+            bound = ns["bound"]
+        else:
+            bound = importlib.import_module(name)
+            pkg, _, leaf = name.rpartition(".")
+        real = sys.modules.get(name)
+        if bound is not real or getattr(bound, "__name__", None) != name:
+            results.append([m, "WrongObject: the client's name is bound to %r, not to the module %s" % (getattr(bound, "__name__", bound), name)])
+        elif pkg and getattr(sys.modules.get(pkg), leaf, None) is not real:
+            results.append([m, "WrongObject: attribute %s of package %s is %r, not the module %s" % (leaf, pkg, getattr(getattr(sys.modules.get(pkg), leaf, None), "__name__", None), name)])
+        else:
+            results.append([m, "ok"])
     except BaseException as e:  # noqa: BLE001
         results.append([m, "%s: %s" % (type(e).__name__, str(e)[:300])])
 
